@@ -511,7 +511,9 @@ struct AbbreviationDisplay<S>(S);
 impl<S: AsRef<str>> core::fmt::Display for AbbreviationDisplay<S> {
     fn fmt(&self, f: &mut core::fmt::Formatter) -> core::fmt::Result {
         let s = self.0.as_ref();
-        if s.chars().any(|ch| ch == '+' || ch == '-') {
+        // Only an abbreviation made up of ASCII letters alone can be written
+        // without quotes. (Digits, like signs, are only valid inside `<...>`.)
+        if s.chars().any(|ch| !ch.is_ascii_alphabetic()) {
             write!(f, "<{s}>")
         } else {
             write!(f, "{s}")
